@@ -488,7 +488,7 @@ class NeuralStateBase(abc.ABC):
         ]
 
         if input_bases is not None:
-            shuffled_pos_bases = input_bases[pos_batch_perm]
+            shuffled_pos_bases = input_bases[pos_batch_perm.cpu().numpy()]
             pos_batches_bases = [
                 shuffled_pos_bases[batch_start : (batch_start + pos_batch_size)]
                 for batch_start in range(0, len(train_samples), pos_batch_size)
